@@ -131,7 +131,7 @@ def py_render(a):
                 side[(b // 2) * 16 + 8 * (b % 2) + s] = piece + bytes([a["filler"]]) * (256 - len(piece))
         cat[f["slot"]] = (f["name"] + f["ext"] + bytes([f["kind"], f["flag"], ch[0], f["lastBytes"] // 256, f["lastBytes"] % 256])
                           + bytes([a["recPad"]]) * 16)
-    side[20 * 16 + 1] = bytes([a["byte0"]] + tab + [a["tableTail"]] * 95)
+    side[20 * 16 + 1] = bytes([a["byte0"]] + tab + [(a["tableTail"] * (i + 1)) % 256 for i in range(95)])
     for k in range(14):
         side[20 * 16 + 2 + k] = b"".join(cat[8 * k: 8 * k + 8])
     return side
